@@ -8,6 +8,7 @@ Scenario (JSON):
    'seq':  {'values': [...], 'delays': [...], 'repeat': r},            first request, sent at virtual time 0
    'cmd':  {'kind': 'none'|'seq'|'expr'|'noexpr'|'disable', 'at': ms, 'pos': k, 'values':…, 'delays':…, 'repeat':…},
    'dlat': ms the driver's handle_disable() hook takes (optional, default 0),
+   'wlat': ms the driver's write_value() takes (optional, default 0),
    'cmd2': optional second command {'kind': 'seq'|'disable', ...} started in the same loop iteration right after `cmd`,
    'horizon': ms}
 
@@ -79,13 +80,17 @@ class Impl:
                 self.writes = []
                 self.state = initial
                 self.disable_latency = 0
+                self.write_latency = 0
 
             async def read_value(self):
                 if self.state is None:
                     raise core_ports.SkipRead()
                 return self.state
 
+            # scripted write latency (0 in most scenarios): a driver slower than the sequence lets the write queue fill
             async def write_value(self, value):
+                if self.write_latency > 0:
+                    await asyncio.sleep(self.write_latency / 1000.0)
                 self.writes.append([vloop.vtime_ms(), value])
                 self.state = value
 
@@ -138,6 +143,7 @@ class Impl:
         self.core_main._update_lock = None      # an asyncio.Lock of the previous scenario's loop
         port = (await core_ports.load([{'driver': cls, 'port_id': pid, 'initial': sc['port'].get('initial')}]))[0]
         port.disable_latency = sc.get('dlat', 0)
+        port.write_latency = sc.get('wlat', 0)
         log, notes = [], []
 
         def active():
@@ -149,8 +155,10 @@ class Impl:
         # "submitted to the port's write path" = transform_and_write_value is called (synchronously, by the call-back)
         orig_tw = port.transform_and_write_value
 
+        closed = []     # set once the horizon event is logged: the observation ends there
+
         def tw(value):
-            if value not in EXPR_VALUES:     # what the harness's own expressions write is not part of any sequence
+            if value not in EXPR_VALUES and not closed:     # what the harness's own expressions write is not part of any sequence
                 log.append([S, ms(), value, active()])
             return orig_tw(value)
 
@@ -159,7 +167,8 @@ class Impl:
 
         async def fin():
             await orig_fin()
-            log.append([F, ms(), 0, active()])
+            if not closed:
+                log.append([F, ms(), 0, active()])
 
         port._on_sequence_finish = fin
 
@@ -241,13 +250,20 @@ class Impl:
             if loop.time() < end:
                 await asyncio.sleep(end - loop.time())
             log.append([E, horizon, 0, active()])
+            closed.append(True)
             # drain: let the write path finish what was submitted (bounded)
             for _ in range(50):
                 await asyncio.sleep(0)
+            if port.write_latency > 0:
+                # a slow driver: wait (bounded) until the write queue is empty and the last write is confirmed
+                for _ in range(5000):
+                    if port._write_value_queue.empty() and not port.is_writing():
+                        break
+                    await asyncio.sleep(port.write_latency / 1000.0)
         finally:
             self.core_sequences.Sequence.cancel = orig_cancel
             await self.drop_port(port)
-        return {'log': log, 'writes': port.writes, 'notes': notes}
+        return {'log': log, 'writes': port.writes, 'notes': notes, 'queue_size': type(port).WRITE_VALUE_QUEUE_SIZE}
 
     async def goto(self, loop, at, pos, notes):
         """suspend until virtual time `at`, ordered after exactly `pos` steps of the sequence task due at that instant"""
